@@ -129,8 +129,8 @@ Proof.
   destruct ((pd <=? depth) && negb c1 || (s1 =? 0)) eqn:E; [apply nofuel_ok|].
   apply orb_false_iff in E as [E _]. apply IH.
   destruct c1.
-  - specialize (L2 eq_refl eq_refl). lia.
-  - rewrite andb_true_r in E. apply Nat.leb_gt in E. lia.
+  - specialize (L2 eq_refl eq_refl). cbn [andb]. destruct (depth <? pd); lia.
+  - rewrite andb_true_r in E. apply Nat.leb_gt in E. cbn [andb]. lia.
 Qed.
 
 Lemma merge_nofuel a b next : nofuel (merge a b next).
